@@ -467,8 +467,14 @@ pub fn recover_replay(a: &Args) -> Report {
         continue;
       }
       // ideal-cipher predictions need plaintexts long enough that a wrong key cannot
-      // reproduce them by chance (2^-64): altered collections skip the 1-byte valuations
-      if faulty && val.img.iter().any(|i| i.len() < 8) {
+      // reproduce them by chance (2^-64): altered collections skip the 1-byte valuations, and so do
+      // collections of DIRECT ADSS sharings that must be refused (their message and coins are the
+      // valuation's strings: with one byte each, a wrong key "authenticates" with probability 2^-16;
+      // STAR clients share 32-byte derived values and are not affected)
+      let short = val.img.iter().any(|i| i.len() < 8);
+      let direct_adss = ib.iter().any(|e| clients[e[0].as_u64().unwrap() as usize - 1].cfg.src.starts_with("adss"));
+      if short && (faulty || (direct_adss && !can_ok)) {
+        rep.count("skipped_short_plaintext", 1);
         continue;
       }
       // build the share list
@@ -495,7 +501,8 @@ pub fn recover_replay(a: &Args) -> Report {
       let replay = json!({"valuation": val.name, "inbox": ib, "must_recover": want_ok, "may_recover": can_ok,
         "reference_model_recovers": ref_ok, "first_share_group": grp});
       if prop == "C17" {
-        wasm_line(&cfg, &clients, ib, &shares, want_ok, can_ok, ref_ok, grp, &replay, &mut rep);
+        let reach: Vec<usize> = line["reach"].as_array().map(|a| a.iter().filter_map(|x| x.as_u64().map(|v| v as usize)).collect()).unwrap_or_default();
+        wasm_line(&cfg, &clients, ib, &shares, want_ok, can_ok, ref_ok, grp, &reach, &replay, &mut rep);
         continue;
       }
       // decode (an undecodable altered share counts as rejected)
@@ -710,10 +717,12 @@ fn wasm_line(
   can_ok: bool,
   ref_ok: bool,
   grp: usize,
+  reach: &[usize],
   replay: &Value,
   rep: &mut Report,
 ) {
   let _ = cfg;
+  let _ = can_ok;
   let joined = shares.iter().map(|b| BASE64_STANDARD.encode(b)).collect::<Vec<_>>().join("\n");
   let first = ib[0][0].as_u64().unwrap() as usize;
   let gi = if grp > 0 { grp } else { first };
@@ -729,34 +738,48 @@ fn wasm_line(
   };
   let client_key = clients[gi - 1].key.map(|k| BASE64_STANDARD.encode(k));
   rep.count(if got.is_some() == ref_ok { "outcomes_equal_to_reference_model" } else { "outcomes_differing_from_reference_model_within_contract" }, 1);
-  match (got.clone(), can_ok) {
-    (None, _) if want_ok => rep.violation("C17", "star_wasm::group_shares", "nothing-returned",
+  // `reach`: the sharings that reach their own threshold in this collection.  The call must return
+  // the clients' key when the whole collection is one such sharing; it must return nothing when no
+  // sharing reaches its threshold; for a mixture it may return nothing or the key of a sharing that
+  // does reach it (a wrapper may try the sharings one after the other).
+  let key_of = |g: usize| clients[g - 1].key.map(|k| BASE64_STANDARD.encode(k));
+  let same_epoch: Vec<usize> = reach.iter().cloned().filter(|g| clients[g - 1].cfg.e == *epoch_bytes).collect();
+  let other_epoch_groups: Vec<usize> = reach.iter().cloned().filter(|g| clients[g - 1].cfg.e != *epoch_bytes).collect();
+  match got.clone() {
+    None if want_ok => rep.violation("C17", "star_wasm::group_shares", "nothing-returned",
       format!("threshold reached but the grouping call returned nothing{}", if r.is_panic() { " (panic)" } else { "" }),
       replay.clone()),
-    (Some(_), false) => rep.violation("C17", "star_wasm::group_shares", "key-below-threshold",
+    Some(_) if reach.is_empty() => rep.violation("C17", "star_wasm::group_shares", "key-below-threshold",
       "no measurement reaches its threshold but the grouping call returned a key".into(), replay.clone()),
-    (Some(k), true) => {
-      if Some(k.clone()) != client_key {
+    Some(k) => {
+      if same_epoch.iter().any(|g| key_of(*g) == Some(k.clone())) {
+        rep.nontrivial(format!("wasm:{}", Value::Array(ib.to_vec())));
+      } else if other_epoch_groups.iter().any(|g| key_of(*g) == Some(k.clone())) {
+        rep.violation("C17", "star_wasm::group_shares", "epoch-ignored",
+          "the grouping call returned the key of clients of ANOTHER epoch than the one it was given".into(), replay.clone());
+      } else if other_epoch_groups.is_empty() {
         rep.violation("C17", "star_wasm::group_shares", "wrong-key",
           "the grouping call returned a key different from the contributing clients' key".into(), replay.clone());
       } else {
-        rep.nontrivial(format!("wasm:{}", Value::Array(ib.to_vec())));
+        rep.count("key_derived_from_a_group_of_another_epoch_not_checkable", 1);
       }
       // a different epoch never yields the clients' key — in particular not one that a lenient
       // reading would identify with the clients' epoch (padding, sign, leading zero, case, width)
-      for other_epoch in [format!("{epoch}x"), format!("0{epoch}"), format!("+{epoch}"), format!("{epoch} "), format!(" {epoch}"),
-                          format!("{epoch}\0"), epoch.to_uppercase() + "\u{200b}"] {
-        rep.evaluations += 1;
-        if let Guard::Done(Some(k2)) = guard(|| star_wasm::group_shares(&joined, &other_epoch)) {
-          if Some(k2) == client_key {
-            rep.violation("C17", "star_wasm::group_shares", "epoch-ignored",
-              format!("grouping under the different epoch {other_epoch:?} returned the clients' key"), replay.clone());
-            break;
+      if Some(k.clone()) == client_key {
+        for other_epoch in [format!("{epoch}x"), format!("0{epoch}"), format!("+{epoch}"), format!("{epoch} "), format!(" {epoch}"),
+                            format!("{epoch}\0"), epoch.to_uppercase() + "\u{200b}"] {
+          rep.evaluations += 1;
+          if let Guard::Done(Some(k2)) = guard(|| star_wasm::group_shares(&joined, &other_epoch)) {
+            if Some(k2) == client_key {
+              rep.violation("C17", "star_wasm::group_shares", "epoch-ignored",
+                format!("grouping under the different epoch {other_epoch:?} returned the clients' key"), replay.clone());
+              break;
+            }
           }
         }
       }
     }
-    (None, _) => {
+    None => {
       rep.nontrivial(format!("wasm-none:{}", Value::Array(ib.to_vec())));
     }
   }
